@@ -14,6 +14,11 @@ import (
 	"capnproto.org/go/capnp/v3/zverif/common"
 )
 
+// deepMultiField names the embed types whose innermost struct (>= 3 levels of
+// anonymous embedding down) maps two or more schema fields.
+var deepMultiField = map[string]bool{"E4TwoFields": true, "E5TwoFields": true, "E4TwoEmbedded": true, "E4Zdate": true,
+	"E4ZdatePtr": true, "E4ZdateRenamed": true, "E4ZdateSplit": true, "E4PlaneBase": true}
+
 type pogsRun struct {
 	rec *common.Recorder
 	cfg *common.Config
@@ -206,8 +211,11 @@ func (p *pogsRun) valueCase(i uint64, rng *common.RNG, embed bool) {
 	}
 	input := map[string]interface{}{"type": m.name, "value": dumpGo(cl, 0)}
 	rec.Count("gotype_"+m.name, 1)
-	if strings.HasPrefix(m.name, "E3") || strings.HasPrefix(m.name, "E4") {
+	if strings.HasPrefix(m.name, "E3") || strings.HasPrefix(m.name, "E4") || strings.HasPrefix(m.name, "E5") {
 		rec.Count("embed_depth3plus_values", 1)
+	}
+	if deepMultiField[m.name] {
+		rec.Count("embed_deep_multifield_values", 1)
 	}
 
 	// 1. Insert the clean value.
@@ -485,8 +493,11 @@ func (p *pogsRun) messageCase(i uint64, rng *common.RNG, embed bool) {
 	}
 	input := map[string]interface{}{"type": m.name, "shape": sh.name, "segment": common.Hex(msgBytes(b.msg)), "struct_size": fmt.Sprint(s.Size()), "accessors": truncS(v.shortString(), 600)}
 	rec.Count("gotype_"+m.name, 1)
-	if strings.HasPrefix(m.name, "E3") || strings.HasPrefix(m.name, "E4") {
+	if strings.HasPrefix(m.name, "E3") || strings.HasPrefix(m.name, "E4") || strings.HasPrefix(m.name, "E5") {
 		rec.Count("embed_depth3plus_messages", 1)
+	}
+	if deepMultiField[m.name] {
+		rec.Count("embed_deep_multifield_messages", 1)
 	}
 	rec.Count("shape_"+sh.name, 1)
 	for mm, n := range b.members {
@@ -704,4 +715,166 @@ func (p *pogsRun) runHistory(i uint64, rng *common.RNG) {
 		}
 		rec.Count("history_calls", 2)
 	}
+}
+
+// ---------------------------------------------------------------------------
+// mode prefilled: Insert into a destination struct that already holds data
+// (built with generated setters, by an earlier Insert, or both; for unions
+// this includes another member occupying the shared slots).  Insert "copies
+// val into s": for every field the Go value maps (and, in a union, for the
+// active member) the generated accessors on the destination must afterwards
+// show the Go value, exactly as they do after an Insert into a fresh struct,
+// and Extract must give the value back.  Nothing is asserted about schema
+// fields the Go type does not map or about inactive members.
+
+func (p *pogsRun) runPrefilled(i uint64, rng *common.RNG) {
+	rec := p.rec
+	m := pickMapping(rng.Uint64(), false)
+	sh := shapeByName(m.schema)
+	if sh == nil {
+		rec.Inconclusive("harness: no shape for " + m.schema)
+		return
+	}
+	how := rng.Intn(3) // 0 setters, 1 earlier Insert, 2 both
+	b := newBctx(rng.Fork())
+	b.stale = true
+	b.maxStr = 8
+	b.maxLen = 4
+	g := newGgen(rng.Fork())
+	g.maxStr = 8
+	g.maxLen = 4
+	var dst capnp.Struct
+	if pn := common.Guard(func() {
+		if how == 1 {
+			var err error
+			dst, err = capnp.NewStruct(b.seg, m.size)
+			b.ck(err)
+		} else {
+			dst = sh.build(b) // resize is off: full-size struct
+		}
+	}); pn != nil || len(b.errs) > 0 {
+		rec.Inconclusive(fmt.Sprintf("harness could not build destination %s: %v", sh.name, b.errs))
+		return
+	}
+	if how >= 1 {
+		g0 := reflect.New(m.typ)
+		if pn := common.Guard(func() { g.fill(g0.Elem(), 2, false) }); pn != nil {
+			rec.Inconclusive("harness generator panicked: " + pn.Value)
+			return
+		}
+		clean(g0.Elem())
+		var err error
+		if pn := common.Guard(func() { err = pogs.Insert(m.typeID, dst, g0.Interface()) }); pn != nil || err != nil {
+			rec.Violate("pogs/insert-error/prefilled-first/"+m.name, fmt.Sprintf("first Insert into the destination failed: %v %v", err, pn), i, "", map[string]string{"type": m.name, "value": dumpGo(g0, 0)})
+			return
+		}
+	}
+	if dst.Size() != m.size {
+		rec.Inconclusive(fmt.Sprintf("harness: destination %s has size %v, want %v", sh.name, dst.Size(), m.size))
+		return
+	}
+	// what the destination holds before
+	vc0 := &vctx{}
+	var pre *V
+	common.Guard(func() { pre = sh.view(vc0, dst) })
+	preBytes := common.Hex(msgBytes(b.msg))
+	hadPtr := false
+	for k := 0; k < int(m.size.PointerCount); k++ {
+		if dst.HasPtr(uint16(k)) {
+			hadPtr = true
+		}
+	}
+
+	g.sparse = true
+	gv := reflect.New(m.typ)
+	if pn := common.Guard(func() {
+		g.fill(gv.Elem(), 2, false)
+		allocEmbedded(gv.Elem())
+	}); pn != nil {
+		rec.Inconclusive("harness generator panicked: " + pn.Value)
+		rec.Logf("%s", pn.Stack)
+		return
+	}
+	cl := deepCopy(gv)
+	clean(cl.Elem())
+	exp := expectedAfterRoundTrip(cl)
+	member := memberOf(cl)
+	tag := m.name
+	if member != "-" {
+		tag = m.name + "." + member
+	}
+	input := map[string]interface{}{"type": m.name, "prepared_by": []string{"setters", "insert", "setters+insert"}[how],
+		"value": dumpGo(cl, 0), "destination_before": truncS(pre.shortString(), 800), "segment_before": preBytes}
+	rec.Count("prefilled_cases", 1)
+	rec.Count("prefilled_how_"+[]string{"setters", "insert", "both"}[how], 1)
+	rec.Count("gotype_"+m.name, 1)
+	rec.Distinct(common.Hash64([]byte("prefilled"), []byte(m.name), msgBytes(b.msg), []byte(dumpGo(cl, 0))))
+	// coverage: nil struct pointers / nil slices / empty text landing on occupied slots
+	if hadPtr {
+		ti := infoOf(m.typ)
+		for name, path := range ti.fields {
+			if !ti.active(cl.Elem(), name) {
+				continue
+			}
+			f := fieldAt(cl.Elem(), path, false)
+			if !f.IsValid() {
+				continue
+			}
+			old := pre.field(name)
+			occupied := old != nil && (old.K == kStruct && !old.Null || old.K == kList && !old.Null || (old.K == kText || old.K == kData) && len(old.S) > 0)
+			if ti.members != nil {
+				occupied = dst.HasPtr(0) // every pointer member of Z / Aircraft shares slot 0
+			}
+			if !occupied {
+				continue
+			}
+			switch {
+			case f.Kind() == reflect.Ptr && f.Type() != tClient && f.IsNil():
+				rec.Count("prefilled_nil_struct_over_occupied", 1)
+			case f.Kind() == reflect.Slice && f.Len() == 0:
+				rec.Count("prefilled_empty_slice_over_occupied", 1)
+			case f.Kind() == reflect.String && f.Len() == 0:
+				rec.Count("prefilled_empty_text_over_occupied", 1)
+			}
+		}
+	}
+
+	var ierr error
+	if pn := common.Guard(func() { ierr = pogs.Insert(m.typeID, dst, cl.Interface()) }); pn != nil {
+		rec.Violate("panic/pogs.Insert/prefilled/"+common.TopLibFrame(pn.Stack), "pogs.Insert into a pre-populated "+m.schema+" panicked: "+pn.Value, i, pn.Stack, input)
+		return
+	}
+	if ierr != nil {
+		rec.Violate("pogs/insert-error/prefilled/"+tag, fmt.Sprintf("pogs.Insert into a pre-populated %s failed: %v", m.schema, ierr), i, "", input)
+		return
+	}
+	vc := &vctx{}
+	var v *V
+	if pn := common.Guard(func() { v = sh.view(vc, dst) }); pn != nil || len(vc.errs) > 0 {
+		rec.Violate("pogs/insert-unreadable/prefilled/"+tag, fmt.Sprintf("generated accessors fail on the destination after Insert: %v %v", vc.errs, pn), i, "", input)
+		return
+	}
+	gc := newGcmp()
+	if mm := gc.cmp(m.name, m.name, exp.Elem(), v); mm != nil {
+		rec.Violate("pogs/prefilled-dest/insert-vs-getter/"+mm.field,
+			fmt.Sprintf("after pogs.Insert into a pre-populated struct the generated accessor does not show the inserted value at %s: %s (a fresh destination does)", mm.path, mm.msg), i,
+			"accessors after: "+truncS(v.shortString(), 1200), input)
+		return
+	}
+	out := reflect.New(m.typ)
+	var xerr error
+	if pn := common.Guard(func() { xerr = pogs.Extract(out.Interface(), m.typeID, dst) }); pn != nil {
+		rec.Violate("panic/pogs.Extract/prefilled/"+common.TopLibFrame(pn.Stack), "pogs.Extract panicked: "+pn.Value, i, pn.Stack, input)
+		return
+	}
+	if xerr != nil {
+		rec.Violate("pogs/extract-error/prefilled/"+tag, fmt.Sprintf("pogs.Extract failed after Insert into a pre-populated struct: %v", xerr), i, "", input)
+		return
+	}
+	if d := normEqual(m.name, exp.Elem(), out.Elem(), false); d != "" {
+		rec.Violate("pogs/prefilled-dest/roundtrip/"+tag, fmt.Sprintf("Extract(Insert(g)) on a pre-populated destination differs from g at %s", d), i,
+			"in:  "+truncS(dumpGo(exp, 0), 1200)+"\nout: "+truncS(dumpGo(out, 0), 1200), input)
+		return
+	}
+	rec.Count("prefilled_ok", 1)
 }
